@@ -96,7 +96,7 @@ def plan_args(op: dict, doc: dict, c: inst.Canary) -> dict:
         required = p["required"] or p["in"] == "path"
         if not required and r.random() < 0.45:
             continue  # left UNSET
-        url_safe = p["in"] in ("path", "header", "cookie")
+        url_safe: Any = "path" if p["in"] == "path" else p["in"] in ("header", "cookie")
         J = inst.gen(p["schema"], doc, c, depth=2, url_safe=url_safe, allow_null=(p["in"] == "query" and not required))
         if J is None and p["in"] != "query":
             continue
